@@ -17,10 +17,56 @@ import z3
 _orig_select = z3.Select
 
 
+_KEEPALIVE = []
+FRAME_INFO = {}       # id of a framed heap array constant -> (the array, old array, keep(r) -> Bool)
+PENDING_FACTS = []    # quantifier-free instances of frame axioms produced by reads; part of every query of the current path
+#                       (kept outside the state's pc so that snapshot/restore of a state never loses them; reset per path)
+
+
+def reset_frames():
+    FRAME_INFO.clear()
+    del PENDING_FACTS[:]
+    _EMITTED.clear()
+    del _KEEPALIVE[:]
+
+
+def _frame_bases(a, out, depth=0):
+    if depth > 60:
+        return
+    if z3.is_const(a):
+        info = FRAME_INFO.get(a.get_id())
+        if info is not None:
+            out.append(info)
+        return
+    if z3.is_app(a):
+        k = a.decl().kind()
+        if k == z3.Z3_OP_STORE:
+            _frame_bases(a.arg(0), out, depth + 1)
+        elif k == z3.Z3_OP_ITE:
+            _frame_bases(a.arg(1), out, depth + 1)
+            _frame_bases(a.arg(2), out, depth + 1)
+
+
+_EMITTED = set()
+
+
 def _select(a, *idx):
     if z3.is_quantifier(a) and a.is_lambda() and len(idx) == a.num_vars():
         body = z3.substitute_vars(a.body(), *[i if isinstance(i, z3.ExprRef) else z3.IntVal(i) for i in reversed(idx)])
         return z3.simplify(body)
+    if FRAME_INFO and len(idx) == 1:
+        bases = []
+        _frame_bases(a, bases)
+        if bases:
+            i0 = idx[0] if isinstance(idx[0], z3.ExprRef) else z3.IntVal(idx[0])
+            if z3.is_const(i0) and i0.decl().name().startswith(("r!", "j!", "i!", "k!")):
+                return _orig_select(a, *idx)        # a bound variable of a formula under construction: not a read
+            for (arr, old, keep) in bases:
+                key = (arr.get_id(), i0.get_id())
+                if key not in _EMITTED:
+                    _EMITTED.add(key)
+                    # instance of the frame axiom at this index (reads of the old array recurse through older frames)
+                    PENDING_FACTS.append(z3.Implies(keep(i0), _orig_select(arr, i0) == _select(old, i0)))
     return _orig_select(a, *idx)
 
 
@@ -150,12 +196,13 @@ class Heap:
     def field(self, name):
         if name not in self.fld and getattr(self, "framed", None) is not None:
             # a heap produced by a framed havoc: fields first mentioned later are framed the same way
-            old, keep_fld, keep_has, base = self.framed
-            r = z3.Int("r!fh")
+            old, keep_fld, keep_has, base, link = self.framed
             bf = base.field(name)
             bh = base.hasf(name)
-            self.fld[name] = z3.Lambda([r], z3.If(keep_fld(r, name), z3.Select(old.field(name), r), z3.Select(bf, r)))
-            self.has[name] = z3.Lambda([r], z3.If(keep_has(r, name), z3.Select(old.hasf(name), r), z3.Select(bh, r)))
+            self.fld[name] = bf
+            self.has[name] = bh
+            link(bf, old.field(name), lambda rr, n=name: keep_fld(rr, n))
+            link(bh, old.hasf(name), lambda rr, n=name: keep_has(rr, n))
             for a in base.axioms:
                 if not any(a.eq(b) for b in self.axioms):
                     self.axioms.append(a)
